@@ -48,6 +48,7 @@ var programs = map[string]func() *progs.Prog{
 	"maponly-1":       func() *progs.Prog { return progs.MapOnly(1) },
 	"index":           func() *progs.Prog { return progs.Index() },
 	"storemap-2-3":    func() *progs.Prog { return progs.StoreMap(2, 3) },
+	"storemap-7-4":    func() *progs.Prog { return progs.StoreMap(7, 4) },
 	"twostages-1-4-6": func() *progs.Prog { return progs.TwoStages(1, 4, 6) },
 	"samestage-1-7-3": func() *progs.Prog { return progs.SameStage(1, 7, 3) },
 	"clocksparse2-2":  func() *progs.Prog { return progs.ClockSparse2(2) },
@@ -464,6 +465,10 @@ func Run(ctx *core.Ctx) int {
 	add("storemap-0-0", 2, true, 1, 6, 6, w12, pc)
 	// holes in the snapshot sequence of a 3-segment grid (a later full snapshot present, an earlier one pruned), with and
 	// without the cached outputs
+	// every cached output present, no snapshot at all; and the same for a graph whose map starts below its store (the
+	// mapper's files then start below the stores' segmenter)
+	add("storemap-0-0", 2, true, 1, 6, 6, []int{2}, []string{"kvo:0"})
+	add("storemap-7-4", 5, true, 9, 20, -1, []int{1}, []string{"kvo:0", "empty"})
 	for mask := 1; mask < 7; mask++ {
 		add("storemap-0-0", 2, true, 1, 6, 6, []int{2}, []string{fmt.Sprintf("kvo:%d", mask)})
 		if mask == 2 || ctx.Thorough() { // quick: only the middle snapshot present, one worker
